@@ -27,6 +27,9 @@ type FOp struct {
 	IntKey bool        `json:"int_key,omitempty"` // put/del: in the integer-key DBI instead
 	Blob   int         `json:"blob,omitempty"`    // index into the blobs stored so far (mod count)
 	From   int         `json:"from,omitempty"`    // merge: if > 0, the newest blob of instance From-1 instead
+	// Held (put/del, native mode): the application's transaction stays open - holding the write lock - until
+	// the next operation on that instance; if that is a merge, it commits 2 ms after the merge has started
+	Held bool `json:"held,omitempty"`
 }
 
 type HistCase struct {
@@ -53,6 +56,7 @@ type histStats struct {
 	emptyVal        bool
 	deletes         int
 	delMetOlderLive bool
+	held            int
 }
 
 // runHistory executes the generated history with the stepwise oracle; it
@@ -77,7 +81,12 @@ func runHistory(c HistCase, o *vcore.Obs) (*Fleet, *histStats, error) {
 				binary.LittleEndian.PutUint32(key, []uint32{0, 1, 255, 256, 70000, 1 << 31}[op.Key%6])
 			}
 			ch := Change{DBI: dbi, Key: key, Del: op.Kind == "del", Val: op.Val, TS: op.TS}
-			if err := f.AppCommit(i, []Change{ch}); err != nil {
+			if op.Held && c.Native {
+				if err := f.AppHold(i, []Change{ch}); err != nil {
+					return f, st, fmt.Errorf("%s: harness: %v", step, err)
+				}
+				st.held++
+			} else if err := f.AppCommit(i, []Change{ch}); err != nil {
 				return f, st, fmt.Errorf("%s: harness: %v", step, err)
 			}
 			id := dbi + "/" + string(key)
@@ -90,10 +99,16 @@ func runHistory(c HistCase, o *vcore.Obs) (*Fleet, *histStats, error) {
 			}
 			st.ts0 = st.ts0 || (c.Native && op.TS == 0)
 			st.emptyVal = st.emptyVal || (op.Kind == "put" && len(op.Val) == 0)
+			if op.Held && c.Native {
+				continue // (not committed yet)
+			}
 			if err := f.CheckInstance(i, false); err != nil {
 				return f, st, fmt.Errorf("%s: %w", step, err)
 			}
 		case "upload":
+			if err := f.FinishHeld(i); err != nil {
+				return f, st, fmt.Errorf("%s: harness: %v", step, err)
+			}
 			if _, err := f.Upload(i); err != nil {
 				return f, st, fmt.Errorf("%s: %w", step, err)
 			}
@@ -231,6 +246,7 @@ func classifyHist(c HistCase, st *histStats, o *vcore.Obs) bool {
 	o.ClassIf(st.delVsPut, "delete-vs-put-conflict")
 	o.ClassIf(st.emptyVal, "empty-value")
 	o.ClassIf(st.nonNewest, "merge-of-non-newest-blob")
+	o.ClassIf(st.held > 0, "app-txn-open-while-a-merge-started")
 	o.ClassIf(c.Native, "native")
 	o.ClassIf(!c.Native, "shadow")
 	usesInt := false
@@ -312,6 +328,13 @@ func genHist(t *rapid.T, delHeavy bool, maxOps int) HistCase {
 			}
 		case "merge":
 			op.Blob = rapid.IntRange(0, 30).Draw(t, "blob")
+		}
+		if (op.Kind == "put" || op.Kind == "del") && c.Native && rapid.IntRange(0, 3).Draw(t, "held") == 0 {
+			// the transaction is still open when this instance starts merging somebody's newest snapshot
+			op.Held = true
+			c.Ops = append(c.Ops, op, FOp{Kind: "merge", Inst: op.Inst, From: 1 + rapid.IntRange(0, c.N-1).Draw(t, "held_from")})
+			i++
+			continue
 		}
 		c.Ops = append(c.Ops, op)
 	}
